@@ -12,23 +12,23 @@ PY = "/venv/bin/python"
 CLAIMS = {
     "C01": dict(
         tech="static analysis: writer/reader exhaustiveness of dim kinds, branch-table vs statement, exception-translation and alias/copy provenance, slice agreement (ast)",
-        text="Decides six structural necessary conditions of the array check (dim-kind exhaustiveness, per-axis branch table against the table the statement spells out, NameError->AnnotationError translation with eval on copies, slice agreement, bind-if-absent, rank test) on every path of the checking functions; the shape arithmetic itself is value-level and not decided. Also: no lossy conversion of a symbolic value before the comparison. Also (re-used clauses): the array check's snapshot / restore discipline (C04) and the dtype-name comparison (C03.3); an eval namespace copied once per call while the loop keeps binding is reported as stale.",
+        text="Decides six structural necessary conditions of the array check (dim-kind exhaustiveness, per-axis branch table against the table the statement spells out, NameError->AnnotationError translation with eval on copies, slice agreement, bind-if-absent, rank test) on every path of the checking functions; the shape arithmetic itself is value-level and not decided. Also: no lossy conversion of a symbolic value before the comparison. Also (re-used clauses): the array check's snapshot / restore discipline (C04) and the dtype-name comparison (C03.3); an eval namespace copied once per call while the loop keeps binding is reported as stale. Prefix axes are matched before suffix axes.",
         ref="DESIGN.md §4 C01"),
     "C02": dict(
         tech="static analysis: push/pop typestate through the wrapper (one context for parameters, body and return), argument-forwarding and parameter-kind exhaustiveness checks (ast + CFG)",
-        text="Decides that parameters, body and return value are judged in one and the same binding context, forwarded unchanged, with synthetic signatures covering all five parameter kinds; the exists-assignment equivalence is value-level and not decided. Also: wrapping of a dataclass's __init__ is skipped only on the strength of the class's own __init__ (no inherited lookup). Also: push / pop balance and no suspension inside a context around every wrapped call (C05's clauses), so that a call's checks see that call's frame. Also: apply_defaults between bind and push.",
+        text="Decides that parameters, body and return value are judged in one and the same binding context, forwarded unchanged, with synthetic signatures covering all five parameter kinds; the exists-assignment equivalence is value-level and not decided. Also: wrapping of a dataclass's __init__ is skipped only on the strength of the class's own __init__ (no inherited lookup). Also: push / pop balance and no suspension inside a context around every wrapped call (C05's clauses), so that a call's checks see that call's frame. Also: apply_defaults between bind and push. Within one annotation axes are matched left to right (C01.4).",
         ref="DESIGN.md §4 C02"),
     "C03": dict(
         tech="static analysis: constant folding of the dtype tables, agreement of three export lists, documented hierarchy (docs/api/array.md) vs folded sets, comparison-operator check (ast)",
-        text="Decides the table half: which dtype names each of the 34 categories contains (against the documented hierarchy) and how a name is compared; dtype-name extraction per backend depends on run-time names and is not decided. Also: no dtype name / verdict of the checked array is remembered on the annotation class or a module-level object. Also: names are compared by equality only under the test that the entry is a string; plain names are not compiled into an unanchored regex; the check reads the annotation's own dtypes, not a table of the category class. Also: a category's dtypes are never re-bound after the class was defined.",
+        text="Decides the table half: which dtype names each of the 34 categories contains (against the documented hierarchy) and how a name is compared; dtype-name extraction per backend depends on run-time names and is not decided. Also: no dtype name / verdict of the checked array is remembered on the annotation class or a module-level object. Also: names are compared by equality only under the test that the entry is a string; plain names are not compiled into an unanchored regex; the check reads the annotation's own dtypes, not a table of the category class. Also: a category's dtypes are never re-bound after the class was defined. The escape hatch asks isinstance(dtype, str), not the exact type.",
         ref="DESIGN.md §4 C03"),
     "C04": dict(
         tech="static analysis: rollback typestate on a statement CFG with Exception/BaseException edge classes (restore followed into helpers and context managers by summaries; callee parameter-write summaries), snapshot provenance and dominance, 4-slot order agreement, unconditional in-place restore (ast + CFG product exploration)",
-        text="Decides rollback on every failing exit (False, Exception, BaseException) of both check sites, that snapshots are real copies taken before the mutating call, and that the four memo slots keep one order across get/push/set/restore sites.",
+        text="Decides rollback on every failing exit (False, Exception, BaseException) of both check sites, that snapshots are real copies taken before the mutating call, and that the four memo slots keep one order across get/push/set/restore sites. A lazy snapshot (generator / map object) is reported.",
         ref="DESIGN.md §4 C04"),
     "C05": dict(
         tech="static analysis: interprocedural push/pop typestate with function summaries on a CFG with finally-duplication and two exception classes; storage-discipline and ownership census (ast)",
-        text="Decides, for all paths and all three exits of every function that pushes a binding context, that it is popped exactly once; context-manager pairing; no suspension inside a context; storage discipline of the five primitives. Also: the push function cannot fail after it appended the frame; only the innermost frame of the stack is ever read. Also: the push function re-initialises no thread-local / module-level slot beside the stack that the pop function does not put back (per-frame state is part of the frame).",
+        text="Decides, for all paths and all three exits of every function that pushes a binding context, that it is popped exactly once; context-manager pairing; no suspension inside a context; storage discipline of the five primitives. Also: the push function cannot fail after it appended the frame; only the innermost frame of the stack is ever read. Also: the push function re-initialises no thread-local / module-level slot beside the stack that the pop function does not put back (per-frame state is part of the frame). Generator detection unwraps the whole __wrapped__ chain.",
         ref="DESIGN.md §4 C05"),
     "C06": dict(
         tech="static analysis: thread-confinement by effect classification of every store reachable from the check entry points over the resolved call graph (ast + call graph)",
@@ -36,7 +36,7 @@ CLAIMS = {
         ref="DESIGN.md §4 C06"),
     "C07": dict(
         tech="static analysis: path counting of the single call of fn, dominance of the parameter check, handler-exit analysis (exception transparency of every handler around the call of fn), generated-code hole provenance, descriptor sibling agreement (ast + CFG, after inlining of helpers new w.r.t. the pinned tree)",
-        text="Decides exactly-once call and identity of the returned object on every normal path, body-not-run on violation, bind errors outside converting handlers, that a handler around the call of fn re-raises and cannot replace the body's exception, functools.wraps/descriptor rebuilding, hygiene of every hole of the exec'd template, coroutine-kind coverage. Also: the forwarded argument list is never re-bound. Also: the set of names a generated name avoids is not a stale snapshot; leaving a context raises nothing of its own (no raise / assert in the pop primitive or the wrappers' finally clauses).",
+        text="Decides exactly-once call and identity of the returned object on every normal path, body-not-run on violation, bind errors outside converting handlers, that a handler around the call of fn re-raises and cannot replace the body's exception, functools.wraps/descriptor rebuilding, hygiene of every hole of the exec'd template, coroutine-kind coverage. Also: the forwarded argument list is never re-bound. Also: the set of names a generated name avoids is not a stale snapshot; leaving a context raises nothing of its own (no raise / assert in the pop primitive or the wrappers' finally clauses). The signature follows __wrapped__ like get_type_hints; the checkers are called with one ** mapping.",
         ref="DESIGN.md §4 C07"),
     "C08": dict(
         tech="static analysis: must-pass-through and dominance on the CFG of the PyTree check (every leaf checked, reject on first failure, accept only after the loop), predicate identity flatten/check, rollback and flag typestates (ast + CFG)",
@@ -44,7 +44,7 @@ CLAIMS = {
         ref="DESIGN.md §4 C08, §7"),
     "C09": dict(
         tech="static analysis: exception-translation discipline for unbound composite names, ValueError-only raise census and validation dominance in PyTree.__getitem__, bind-if-absent shape (ast + CFG)",
-        text="Decides three clauses: unbound name in a composite raises AnnotationError and is not swallowed, structure-string validation raises only ValueError on nodes dominating the class return, identifier form is bind-if-absent/compare; tree composition semantics are value-level and not decided. Also: every name of a composite is looked up; no mode reaches the leaves without one of the three comparisons. Also: the value is walked once, with the leaf predicate; no comparison re-walks the raw value.",
+        text="Decides three clauses: unbound name in a composite raises AnnotationError and is not swallowed, structure-string validation raises only ValueError on nodes dominating the class return, identifier form is bind-if-absent/compare; tree composition semantics are value-level and not decided. Also: every name of a composite is looked up; no mode reaches the leaves without one of the three comparisons. Also: the value is walked once, with the leaf predicate; no comparison re-walks the raw value. Every name of a composite is substituted by tree_map; nothing else re-binds the accumulator in the loop.",
         ref="DESIGN.md §4 C09"),
     "C10": dict(
         tech="static analysis: frame condition (complete write set) of the AST transformer, visitor surface, traversal and location-copy checks, template folding and re-parsing (ast)",
